@@ -52,6 +52,7 @@ type c12case struct {
 	setup    int  // 0 clean: the device is silent until the first return and a GetPrompt precedes the operation; 1 stale: the device shows its prompt on connect and nothing reads it; 2 shifted: prompt on connect, then a GetPrompt (which returns at the stale prompt and leaves its own answer behind)
 	host     string
 	weird    string // "" or the name of the out-of-domain twist that was applied
+	clean    bool   // built without any twist, from a clean queue, with questions no proper prefix of which matches their pattern, and with hidden inputs the device does not echo
 
 	// inter
 	events    []c12ev
@@ -288,11 +289,18 @@ func genC12(seed uint64, thorough bool) c12case {
 	if r.Chance(1, 3) {
 		cs.depth = longest + 3 + r.Intn(40)
 	}
+	cs.clean = cs.weird == "" && cs.setup == 0
+	for _, e := range cs.events {
+		if strings.HasSuffix(e.ask, ")?") || e.hidden && !e.devHidden {
+			cs.clean = false
+		}
+	}
 	if cs.kind == "inter" && cs.exact && cs.weird == "" {
 		for i, e := range cs.events {
 			if e.input == "" && e.resp >= 0 && !e.hidden && (cs.earlyAt < 0 || i <= cs.earlyAt) {
 				// ReadUntilExplicit of an empty input waits for a chunk the device never sends
 				cs.weird = "exact-empty-input"
+				cs.clean = false
 			}
 		}
 	}
@@ -724,14 +732,21 @@ func runC12(c *ctx) {
 	for i := range cases {
 		cases[i] = genC12(base.U64(), c.thorough())
 	}
-	for lo := 0; lo < len(cases); lo += 500 {
-		hi := lo + 500
+	for lo := 0; lo < len(cases); lo += 250 {
+		hi := lo + 250
 		if hi > len(cases) {
 			hi = len(cases)
 		}
 		c12check(c, cases[lo:hi])
-		if len(res.Findings) >= 24 && hi < len(cases) {
-			res.Note("stopped after %d of %d sessions: %d findings recorded", hi, len(cases), len(res.Findings))
+		nf := 0
+		for k, v := range res.Distribution {
+			if strings.HasPrefix(k, "finding:") {
+				nf += v
+			}
+		}
+		if nf >= 20 && hi < len(cases) {
+			// a broken tree makes many sessions run into their timeout: enough evidence, stop
+			res.Note("stopped after %d of %d sessions: %d failing checks recorded", hi, len(cases), nf)
 			break
 		}
 	}
@@ -940,7 +955,21 @@ func c12check(c *ctx, cases []c12case) {
 		if cs.kind == "inter" {
 			c12hiddenOracle(res, caseLine, cs, o)
 		}
-		if !okAll || !allDom {
+		// in-domain: the model found every read exact. When the correspondence is broken the model's
+		// judgement is void; the oracles then run on the sessions the generator built without any
+		// twist from a clean queue (which are in-domain on a conforming implementation), so that a
+		// concrete failing input is reported instead of a bare model disagreement.
+		inDom := allDom
+		if !okAll {
+			inDom = cs.clean
+			traces = nil
+		} else if cs.clean && !allDom {
+			res.Count("clean-but-nodom")
+			if c.replay == "" && res.Distribution["clean-but-nodom"] <= 6 {
+				res.Note("clean-but-nodom %s", caseLine)
+			}
+		}
+		if !inDom {
 			continue
 		}
 		res.InDomain++
@@ -991,7 +1020,7 @@ func c12interOracle(res *vlib.Result, caseLine string, cs c12case, o c12obs, tra
 		res.Fail("oracle", caseLine, fmt.Sprintf("device received %s, the dialogue demands %s", c12join(op.impl), c12join(want)), "wrong-device-input")
 		return
 	}
-	if c12join(traces[o.main].writes) != c12join(want) {
+	if traces != nil && c12join(traces[o.main].writes) != c12join(want) {
 		res.Fail("machinery", caseLine, "in-domain case: model writes differ from the spec", "model-vs-spec")
 	}
 	// every input arrived in the device state it answers
@@ -1040,8 +1069,11 @@ func c12interOracle(res *vlib.Result, caseLine string, cs c12case, o c12obs, tra
 // another reason).
 func c12hiddenOracle(res *vlib.Result, caseLine string, cs c12case, o c12obs) {
 	op := o.ops[o.main]
-	for rel := 0; rel < len(op.impl); rel += 2 {
+	for rel := 0; rel < len(op.impl) && rel/2 < len(cs.events); rel += 2 {
 		ev := cs.events[rel/2]
+		if string(op.impl[rel]) != ev.input {
+			break // the writes do not follow the event list at all: reported elsewhere
+		}
 		if ev.hidden && ev.devHidden && rel+1 >= len(op.impl) {
 			res.Fail("oracle", caseLine, fmt.Sprintf("hidden input of event %d was written but its return never followed (error class %s): the echo of a hidden input was awaited", rel/2, op.err), "hidden-awaited")
 		}
@@ -1121,7 +1153,7 @@ func c12escOracle(res *vlib.Result, caseLine string, cs c12case, o c12obs, trace
 				return
 			}
 		}
-		{
+		if traces != nil {
 			for k, red := range traces[j].redacted {
 				if red != (k == 2) {
 					res.Fail("machinery", caseLine, "model redaction flags differ from the spec", "model-vs-spec")
